@@ -160,3 +160,31 @@ pub proof fn lemma_convex_diff(w: real, e1: real, e2: real, x: real)
 {
     assert((1real - w) * (e1 - e2) == e1 * (1real - w) - e2 * (1real - w)) by(nonlinear_arith);
 }
+
+pub proof fn lemma_lin_div(a: real, b: real, su: real, sw: real, k: real, mu: real, mw: real)
+    requires k != 0real, mu * k == su, mw * k == sw
+    ensures (a * mu + b * mw) * k == a * su + b * sw
+{
+    assert((a * mu + b * mw) * k == a * (mu * k) + b * (mw * k)) by(nonlinear_arith);
+}
+pub proof fn lemma_lin_step(a: real, b: real, p: real, q: real, x: real, y: real, c: real)
+    ensures (a * p + b * q) + c * (a * x + b * y) == a * (p + c * x) + b * (q + c * y)
+{
+    assert(c * (a * x + b * y) == a * (c * x) + b * (c * y)) by(nonlinear_arith);
+    assert(a * (p + c * x) == a * p + a * (c * x)) by(nonlinear_arith);
+    assert(b * (q + c * y) == b * q + b * (c * y)) by(nonlinear_arith);
+}
+pub proof fn lemma_lin_mul(a: real, b: real, x: real, y: real, c: real)
+    ensures c * (a * x + b * y) == a * (c * x) + b * (c * y), (a * x + b * y) * c == a * (x * c) + b * (y * c)
+{
+    assert(c * (a * x + b * y) == a * (c * x) + b * (c * y)) by(nonlinear_arith);
+    assert((a * x + b * y) * c == a * (x * c) + b * (y * c)) by(nonlinear_arith);
+}
+pub proof fn lemma_lin_add(a: real, b: real, x1: real, y1: real, x2: real, y2: real)
+    ensures (a * x1 + b * y1) + (a * x2 + b * y2) == a * (x1 + x2) + b * (y1 + y2), (a * x1 + b * y1) - (a * x2 + b * y2) == a * (x1 - x2) + b * (y1 - y2)
+{
+    assert(a * (x1 + x2) == a * x1 + a * x2) by(nonlinear_arith);
+    assert(b * (y1 + y2) == b * y1 + b * y2) by(nonlinear_arith);
+    assert(a * (x1 - x2) == a * x1 - a * x2) by(nonlinear_arith);
+    assert(b * (y1 - y2) == b * y1 - b * y2) by(nonlinear_arith);
+}
